@@ -577,10 +577,35 @@ func (tc *TC) RequestWithID(s *Session, id int32, body interface{}, d time.Durat
 	tc.mu.Lock()
 	tc.waiters[id] = ch
 	tc.mu.Unlock()
-	tc.deliver(s, message.RpcMessage{ID: id, Type: message.GettyRequestTypeRequestSync, Codec: 1, Body: body}, 0, 0)
+	// the request is processed on its own goroutine (like a task-pool worker); when the processor
+	// returns without having written a response, there will be none: no need to wait out d
+	m := message.RpcMessage{ID: id, Type: message.GettyRequestTypeRequestSync, Codec: 1, Body: body}
+	done := make(chan struct{})
+	tc.inflight.Add(1)
+	go func() {
+		defer tc.inflight.Done()
+		defer close(done)
+		tc.mu.Lock()
+		tc.log(Event{Dir: "s2c", Session: s.N, ID: m.ID, Type: m.Type, Body: m.Body})
+		tc.mu.Unlock()
+		defer func() {
+			if r := recover(); r != nil {
+				tc.mu.Lock()
+				tc.log(Event{Dir: "panic", Session: s.N, ID: m.ID, Type: m.Type, Body: fmt.Sprint(r)})
+				tc.mu.Unlock()
+			}
+		}()
+		sgetty.GetGettyClientHandlerInstance().OnMessage(s, m)
+	}()
 	select {
 	case resp = <-ch:
 		ok = true
+	case <-done:
+		select {
+		case resp = <-ch:
+			ok = true
+		default:
+		}
 	case <-time.After(d):
 	}
 	tc.mu.Lock()
